@@ -188,6 +188,19 @@ func (e *enc) run(fr *frame, atEntry Term) {
 	e.fr = fr
 	defer func() { e.fr = saved }()
 	fr.analyzeLoops()
+	if fr.contract != nil {
+		var ks []int
+		for k := range fr.contract.Loops {
+			ks = append(ks, k)
+		}
+		sort.Ints(ks)
+		for _, k := range ks {
+			if k < 1 || k > len(fr.loopOrd) {
+				// clauses of a loop the function does not have are never silently dropped
+				e.contractError(fr, fmt.Sprintf("loop %d: the function has %d loop(s)", k, len(fr.loopOrd)))
+			}
+		}
+	}
 	fr.entryMem = copyMem(e.mem)
 	blocks := fr.order()
 	for _, b := range blocks {
@@ -243,6 +256,7 @@ func (e *enc) run(fr *frame, atEntry Term) {
 		for _, in := range b.Instrs {
 			if phi, ok := in.(*ssa.Phi); ok && phi.Comment != "" {
 				fr.curNames[phi.Comment] = phi
+				delete(fr.curObj, phi.Comment)
 			}
 		}
 		if fr.loopHead[b] {
@@ -259,6 +273,10 @@ func (e *enc) run(fr *frame, atEntry Term) {
 			if d, ok := in.(*ssa.DebugRef); ok {
 				if obj, ok := d.Object().(*types.Var); ok && obj != nil && !isPkgLevel(obj) {
 					fr.curNames[obj.Name()] = d.X
+					if fr.curObj == nil {
+						fr.curObj = map[string]types.Object{}
+					}
+					fr.curObj[obj.Name()] = obj
 					// a variable that lives in a cell (address taken / captured) is always read from its cell
 					if a := fr.allocFor(obj); a != nil {
 						fr.curNames[obj.Name()] = a
@@ -268,6 +286,12 @@ func (e *enc) run(fr *frame, atEntry Term) {
 			if c, ok := in.(*ssa.Call); ok && fr.contract != nil && len(fr.contract.After) > 0 {
 				e.afterCall(fr, c)
 			}
+		}
+		if ls := fr.loops[b]; ls != nil && ls.countIdx != nil && ls.countGuard != nil {
+			// i <= n while n cannot change in the loop (entry: 0 <= n or the guard fails at once; back edge: i < n held)
+			idx, n := ls.phiPre[ls.countIdx], e.value(ls.countGuard.Y)
+			e.assumeAt(fmt.Sprintf("(=> (>= %s 0) (<= %s %s))", n, idx, n))
+			e.assumeAt(fmt.Sprintf("(=> (and (>= %s 0) (>= %s %s)) (= %s %s))", n, idx, n, idx, n))
 		}
 		fr.names[b] = fr.curNames
 		fr.atEnd[b] = fr.cur
@@ -611,6 +635,9 @@ func (e *enc) loopHeader(fr *frame, h *ssa.BasicBlock) {
 			ls.rangeIdx = phi
 		}
 	}
+	if ls.rangeIdx == nil {
+		ls.countIdx, ls.countGuard = countedLoop(fr, h, body)
+	}
 	// map range: the ghost set of visited keys (empty on entry)
 	for _, in := range h.Instrs {
 		if nx, ok := in.(*ssa.Next); ok && !nx.IsString {
@@ -755,6 +782,14 @@ func (e *enc) loopHeader(fr *frame, h *ssa.BasicBlock) {
 			e.assume(fmt.Sprintf("(=> (>= (+ %s 1) %s) (= (+ %s 1) %s))", idx, e.value(bound), idx, e.value(bound)))
 		}
 	}
+	// counted loop `for i := 0; i < n; i++` (i changed nowhere else, n fixed): 0 <= i <= n by construction
+	if ls.countIdx != nil {
+		idx := ls.phiPre[ls.countIdx]
+		e.assumeAt(fmt.Sprintf("(>= %s 0)", idx))
+		if ls.countGuard != nil && !e.stableBound(fr, ls.countGuard.Y, h, body, keys, allHeap) {
+			ls.countGuard = nil
+		}
+	}
 	// 3. assume invariants on the havoced state
 	if ls.spec != nil {
 		for i, inv := range ls.spec.Invariants {
@@ -801,6 +836,124 @@ func firstPos(b *ssa.BasicBlock) token.Pos {
 		}
 	}
 	return token.NoPos
+}
+
+// countedLoop recognises `for i := 0; cond(i < n); i++`: a header phi that is 0 on entry and itself + 1 on every back
+// edge, compared in the header with `i < n`. n is reported when it cannot change during the loop: a constant, a value
+// defined outside the loop, or len of such a value (slices are values: the length of an SSA slice value is fixed).
+func countedLoop(fr *frame, h *ssa.BasicBlock, body map[*ssa.BasicBlock]bool) (*ssa.Phi, *ssa.BinOp) {
+	for _, in := range h.Instrs {
+		phi, ok := in.(*ssa.Phi)
+		if !ok {
+			break
+		}
+		if b, isBasic := phi.Type().Underlying().(*types.Basic); !isBasic || b.Info()&types.IsInteger == 0 {
+			continue
+		}
+		good := true
+		for i, p := range h.Preds {
+			ed := phi.Edges[i]
+			if fr.backedge[[2]int{p.Index, h.Index}] {
+				inc, ok := ed.(*ssa.BinOp)
+				if !ok || inc.Op != token.ADD || inc.X != ssa.Value(phi) {
+					good = false
+					break
+				}
+				c, ok := inc.Y.(*ssa.Const)
+				if !ok || c.Value == nil || c.Value.ExactString() != "1" {
+					good = false
+				}
+			} else {
+				c, ok := ed.(*ssa.Const)
+				if !ok || c.Value == nil || c.Value.ExactString() != "0" {
+					good = false
+				}
+			}
+		}
+		if !good {
+			continue
+		}
+		// the guard: the header ends in `if i < n`, leaving the loop when it is false
+		ifi, ok := h.Instrs[len(h.Instrs)-1].(*ssa.If)
+		if !ok {
+			return phi, nil
+		}
+		cmp, ok := ifi.Cond.(*ssa.BinOp)
+		if !ok || cmp.Op != token.LSS || cmp.X != ssa.Value(phi) || cmp.Block() != h || !body[h.Succs[0]] || body[h.Succs[1]] {
+			return phi, nil
+		}
+		return phi, cmp
+	}
+	return nil, nil
+}
+
+// stableBound: the bound of a counted loop is re-evaluated in the header at every iteration; it denotes the same number
+// throughout when it is built from constants, values defined outside the loop, len / field selection of such values, and
+// loads from non-escaping local cells or package variables that the loop (callees included) does not write.
+func (e *enc) stableBound(fr *frame, v ssa.Value, h *ssa.BasicBlock, body map[*ssa.BasicBlock]bool, keys map[string]bool, allHeap bool) bool {
+	var addr func(a ssa.Value) bool
+	addr = func(a ssa.Value) bool {
+		switch x := a.(type) {
+		case *ssa.Alloc:
+			if allocEscapes(x) {
+				return false
+			}
+			if l, ok := fr.loc[x]; ok {
+				return !keys[l.base]
+			}
+			return false
+		case *ssa.Global:
+			return !keys[e.ensureGlobal(x)]
+		case *ssa.FieldAddr:
+			if _, isPtrToStruct := x.X.(*ssa.Alloc); isPtrToStruct {
+				return addr(x.X)
+			}
+			if fa, ok := x.X.(*ssa.FieldAddr); ok {
+				return addr(fa)
+			}
+			if g, ok := x.X.(*ssa.Global); ok {
+				return addr(g)
+			}
+		}
+		return false
+	}
+	var val func(v ssa.Value, d int) bool
+	val = func(v ssa.Value, d int) bool {
+		if d > 8 {
+			return false
+		}
+		switch v.(type) {
+		case *ssa.Const, *ssa.Parameter, *ssa.FreeVar:
+			return true
+		}
+		in, ok := v.(ssa.Instruction)
+		if !ok {
+			return false
+		}
+		if !body[in.Block()] {
+			return true
+		}
+		if in.Block() != h {
+			return false
+		}
+		switch x := v.(type) {
+		case *ssa.Call:
+			if bi, ok := x.Call.Value.(*ssa.Builtin); ok && bi.Name() == "len" && len(x.Call.Args) == 1 {
+				switch x.Call.Args[0].Type().Underlying().(type) {
+				case *types.Slice, *types.Basic:
+					return val(x.Call.Args[0], d+1)
+				}
+			}
+		case *ssa.Field:
+			return val(x.X, d+1)
+		case *ssa.UnOp:
+			if x.Op == token.MUL {
+				return addr(x.X)
+			}
+		}
+		return false
+	}
+	return val(v, 0)
 }
 
 // rangeBound finds the length value the rangeindex is compared with in the loop header.
@@ -1332,6 +1485,7 @@ func (e *enc) instr(b *ssa.BasicBlock, in ssa.Instruction) {
 		}
 		if base.ref != "" && len(base.path) == 0 {
 			e.safety("nil", fmt.Sprintf("(not (= %s 0))", base.ref), x.Pos(), x.String())
+			e.assumeTypeInv(base, pt.Elem())
 		}
 		st := pt.Elem().Underlying().(*types.Struct)
 		ssort := e.so.of(pt.Elem())
@@ -1429,6 +1583,7 @@ func (e *enc) instr(b *ssa.BasicBlock, in ssa.Instruction) {
 			}
 			if l.ref != "" && len(l.path) == 0 {
 				e.safety("nil", fmt.Sprintf("(not (= %s 0))", l.ref), x.Pos(), x.String())
+				e.assumeTypeInv(l, x.Type())
 			}
 			if l.ty == nil && strings.HasPrefix(l.sort, "U_") && e.so.of(x.Type()) != l.sort {
 				// a field whose sort was cut to break a recursive struct definition: converted at the boundary
@@ -2105,6 +2260,13 @@ func (e *enc) typeAssert(x *ssa.TypeAssert) {
 	tag := e.uf("dyntag", []string{"Int"}, "Int")
 	ok := fmt.Sprintf("(and (not (= %s 0)) (= (%s %s) %d))", v, tag, v, e.typeTag(x.AssertedType))
 	val := fmt.Sprintf("(%s %s)", unbox, v)
+	if isGoAst(x.X.Type()) && isGoAst(x.AssertedType) {
+		if _, isPtr := x.AssertedType.Underlying().(*types.Pointer); isPtr {
+			// a parser-produced tree holds no typed nil: a non-nil Expr / Stmt / Node value is a non-nil node
+			e.assumps["go/ast trees as produced by go/parser: interface-typed fields hold no typed-nil pointers"] = true
+			e.assume(fmt.Sprintf("(=> %s (not (= %s 0)))", ok, val))
+		}
+	}
 	if x.CommaOk {
 		okT := e.define("taok", "Bool", ok)
 		fr.tuples[x] = []Term{e.define("ta", s, fmt.Sprintf("(ite %s %s %s)", okT, val, e.zero(x.AssertedType))), okT}
@@ -2113,4 +2275,47 @@ func (e *enc) typeAssert(x *ssa.TypeAssert) {
 		fr.val[x] = e.define("ta", s, val)
 		e.assumeWF(fr.val[x], x.AssertedType, 1)
 	}
+}
+
+// assumeTypeInv: the declared invariants of an external data type (typeinv clauses: go/parser's documented output shape
+// for go/ast nodes) are assumed for the struct a non-nil pointer of that type refers to, on the path that dereferences it.
+// Trusted, and listed. The repository never writes into such structs (checked once per run: see goAstWritten).
+func (e *enc) assumeTypeInv(l *Loc, elem types.Type) {
+	n, ok := elem.(*types.Named)
+	if !ok || n.Obj().Pkg() == nil || e.ss == nil || len(e.ss.TypeInvs) == 0 {
+		return
+	}
+	key := n.Obj().Pkg().Path() + "." + n.Obj().Name()
+	cls := e.ss.TypeInvs[key]
+	if len(cls) == 0 || e.w.extWritten(n.Obj().Pkg().Path()) {
+		return
+	}
+	whole := &Loc{base: l.base, ref: l.ref, sort: e.so.of(elem), ty: elem}
+	sv := e.read(whole)
+	dk := "typeinv#" + key + "#" + sv + "#" + e.fr.cur
+	if e.ufs[dk] {
+		return
+	}
+	e.ufs[dk] = true
+	env := &specEnv{e: e, fr: e.fr, vars: map[string]tval{"self": e.mkT(sv, elem)}, ptrLoc: map[string]*Loc{}, mem: e.mem}
+	if e.fr.fn != nil && e.fr.fn.Pkg != nil {
+		env.pkg = e.fr.fn.Pkg.Pkg
+	}
+	for i, c := range cls {
+		g, err := e.specBool(env, c.E)
+		if err != nil {
+			e.contractError(e.fr, fmt.Sprintf("typeinv %s #%d: %v", key, i+1, err))
+			continue
+		}
+		e.assumeAt(fmt.Sprintf("(=> (not (= %s 0)) %s)", l.ref, g))
+	}
+	e.assumps["typeinv "+key+" (external data invariant, trusted): "+joinClauses(cls)] = true
+}
+
+func joinClauses(cs []Clause) string {
+	var ts []string
+	for _, c := range cs {
+		ts = append(ts, c.Text)
+	}
+	return strings.Join(ts, " && ")
 }
